@@ -56,6 +56,34 @@ Theorem C05_refuses_unsupported : forall lg i f a, has_field a = true -> dop lg 
 Proof. exact dop_refuses. Qed.
 Print Assumptions C05_refuses_unsupported.
 
+(* compositions of operators ([dops], outermost operator first): the value returned after the whole
+   sequence is the iterated derivative; [sdfs S ops e] = the arguments met on the way are defined *)
+Theorem C05_composition_sound : forall (S : dfield) ops e e',
+  dops ops e = Some e' -> sdfs S ops e -> sev S e' = Dops S ops (sev S e).
+Proof. exact dops_sound. Qed.
+Print Assumptions C05_composition_sound.
+
+(* block-wise reading of a composition: applying [ops1 ++ ops2] is applying the block [ops2] and then the
+   block [ops1] to what the first block returned.  The run-time check of sequences that mix the physical
+   and the logical family uses exactly this decomposition, with the expression between two blocks
+   re-read relative to the family of the next block (derivative chains of the other family become opaque
+   field symbols: that renaming is a harness-level step and is not formalised here). *)
+Theorem C05_blocks_compose : forall ops1 ops2 e,
+  dops (ops1 ++ ops2) e = match dops ops2 e with Some m => dops ops1 m | None => None end.
+Proof. exact dops_app. Qed.
+Print Assumptions C05_blocks_compose.
+
+Theorem C05_blocks_sound : forall (S : dfield) ops1 ops2 e m r,
+  dops ops2 e = Some m -> dops ops1 m = Some r -> sdfs S ops2 e -> sdfs S ops1 m ->
+  sev S r = Dops S ops1 (Dops S ops2 (sev S e)).
+Proof. exact dops_blocks_sound. Qed.
+Print Assumptions C05_blocks_sound.
+
+Theorem C05_iterated_derivation_blocks : forall (S : dfield) ops1 ops2 x,
+  Dops S (ops1 ++ ops2) x = Dops S ops1 (Dops S ops2 x).
+Proof. exact Dops_app. Qed.
+Print Assumptions C05_iterated_derivation_blocks.
+
 (* the reference derivative used by the correspondence oracle is itself sound *)
 Theorem C05_reference_derivative : forall (S : dfield) lg i t t',
   tD lg i t = Some t' -> dfd S t -> ev S t' = D S lg i (ev S t).
@@ -78,4 +106,20 @@ Proof.
     + change (num S 1 <> f0 S). apply (Field_theory.F_1_neq_0 (Fth S)).
     + change (num S 1 <> f0 S). apply (Field_theory.F_1_neq_0 (Fth S)).
     + change (num S 1 <> f0 S). apply (Field_theory.F_1_neq_0 (Fth S)).
+Qed.
+
+(* non-vacuity of the block-wise statements: dx1(dx1(dx2(u * v))) is computed in two blocks, and the second
+   block sees an opaque symbol exactly like any other field: the logical block applied to the opaque name
+   "u@L010@P100" (= dx(dx2(u)) seen from the logical family) returns its derivative atom *)
+Example C05_blocks_nonvacuous :
+  let u := SAt (AFld true "u" 0 SNone []) in
+  let v := SAt (AFld true "v" 0 SNone []) in
+  let w := SAt (AFld false "u@L010@P100" 0 SNone []) in
+  (exists m r, dops [(true, 1)] (SMul [u; v]) = Some m /\ dops [(true, 0); (true, 0)] m = Some r /\
+               dops ([(true, 0); (true, 0)] ++ [(true, 1)]) (SMul [u; v]) = Some r) /\
+  dops [(true, 0); (true, 1)] w = Some (SAt (AFld true "u@L010@P100" 0 SNone [1; 1])).
+Proof.
+  simpl. split.
+  - eexists. eexists. split; [vm_compute; reflexivity|]. split; vm_compute; reflexivity.
+  - vm_compute. reflexivity.
 Qed.
